@@ -36,6 +36,6 @@ def tier2(tier, rng):
     th = tier == "thorough"
     for g in L.sample(rng, L.all_grids(2, 2, VALUES), 100 if th else 10):
         yield {"h": 1, "w": 1, "grid": g}
-    for (h, w) in [(1, 2), (2, 2), (2, 3)]:
+    for (h, w) in [(1, 2), (2, 1), (2, 2), (1, 3)]:
         for _ in range(20 if th else 3):
             yield {"h": h, "w": w, "grid": L.random_grid(rng, h + 1, w + 1, VALUES, 0.6)}
